@@ -14,6 +14,7 @@ and a ghost `won` ("X was on `i` at some i-edge so far"):   o == X  ->  won  or 
            timeout >= 4*Ri + 6, WITHOUT any assumption about the time-out: the assumption of theorem A is itself proved
            (the timer never reaches 0); this is the property's precondition "the retry time-out is longer than one
            request/acknowledge round trip" in closed form.
+ The bound of theorem B is exact for Ri = 0, 1: with timeout == 4*Ri + 5 the model reaches a torn word (sanity cases).
  Both are init + consecution (separately for i-only / o-only / both-with-every-per-bit-resolution) + postcondition obligations
  built directly with z3; candidates are filtered Houdini style, the hand-written ones are REQUIRED to survive.
  The model is co-simulated against litex.gen.sim (two real clocks, several period/phase pairs) in every proof case.
@@ -126,7 +127,7 @@ class Model:
                 for x in get_vars(e): allv[str(x)] = x
         allv["won"] = self.won; allv["ci"] = self.ci
         self.allvars = [allv[k] for k in sorted(allv)]
-        self._sub = {}; self._cc = {}
+        self._sub = {}; self._cc = {}; self._nm = {}; self._iph = None
         self.comb = ts.comb_constraints()
 
     # ---------------------------------------------------------------- helpers
@@ -210,7 +211,8 @@ class Model:
             except NotImplementedError: self._cc[i_] = (None, e)
         f = self._cc[i_][0]
         if f is not None:
-            env = {str(self.V(s)): val for s, val in state.items()}; env[str(self.V(self.d.i))] = i_val
+            nm = self._nm
+            env = {(nm.get(s) or nm.setdefault(s, str(self.V(s)))): val for s, val in state.items()}; env[nm.get(self.d.i) or nm.setdefault(self.d.i, str(self.V(self.d.i)))] = i_val
             return f(env)
         subs = [(self.V(s), z3.BitVecVal(val, s.nbits)) for s, val in state.items()] + [(self.V(self.d.i), z3.BitVecVal(i_val, self.W))]
         r = z3.simplify(z3.substitute(e, *subs))
@@ -227,9 +229,12 @@ class Model:
                     mk_ = masks.get(s, 0); new[s] = (old & ~mk_ & ((1 << s.nbits) - 1)) | (nw & mk_)
                 else: new[s] = self._ev(e, state, i_val)
         return new
+    def cphases(self, state, i_val=0):
+        """concrete values of a0..a7 and of _timeout.done in a state"""
+        if self._iph is None: self._iph = ([self.inline(x) for x in self.phases()], self.inline(self.V(self.done)))
+        return [self._ev(x, state, i_val) for x in self._iph[0]], self._ev(self._iph[1], state, i_val)
     def cassume_ok(self, state, i_val, ti, to):
-        a = [self._ev(self.inline(x), state, i_val) for x in self.phases()]
-        done = self._ev(self.inline(self.V(self.done)), state, i_val)
+        a, done = self.cphases(state, i_val)
         if ti and done and not a[0] and not a[7]:
             return not any(a[j] for j in (2, 3, 4, 5, 6)) and not (to and a[1])
         return True
@@ -249,9 +254,8 @@ class Model:
         out = {}
         for nm, s in keys:
             if s is not None: out[nm] = st[s]
-        out["obuffer"] = self._ev(self.inline(self.V(self.obuffer)), st, 0)
-        out["ping.toggle_o"] = self._ev(self.inline(self.V(self.pt_o)), st, 0)
-        out["pong.toggle_o"] = self._ev(self.inline(self.V(self.qt_o)), st, 0)
+        if not hasattr(self, "_ish"): self._ish = [self.inline(self.V(x)) for x in (self.obuffer, self.pt_o, self.qt_o)]
+        out["obuffer"], out["ping.toggle_o"], out["pong.toggle_o"] = [self._ev(x, st, 0) for x in self._ish]
         return out
 
     def trace_of(self, m, depth):
@@ -453,10 +457,6 @@ def _posts(M, inv, out, assume, drift=None, label=""):
     ens("ens.ibuffer-stable-while-request-or-acknowledge-in-flight", z3.Implies(at(inflight, 0), at(V(M.ibuffer), 1) == at(V(M.ibuffer), 0)), step=True)
     ens("ens.request-toggle-stable-once-sampled-by-o-until-acknowledged", z3.Implies(at(z3.Or(*[a[j] for j in (2, 3, 4, 5, 6)]), 0), at(V(M.pt_i), 1) == at(V(M.pt_i), 0)), step=True)
 
-def _fmt(M, script):
-    torn, rows = M.replay(script)
-    return torn, rows
-
 def c_proof(W, T, cosim_runs=True):
     """theorem A: unbounded drift, named time-out assumption"""
     t0 = time.time(); out = []
@@ -499,8 +499,8 @@ def c_proof(W, T, cosim_runs=True):
     fired_idle = None
     for k in range(len(pre)):
         st = states[k]
-        a = [M._ev(M.inline(x), st, 1) for x in M.phases()]
-        if not any(a) and M._ev(M.inline(V(M.done)), st, 1): fired_idle = k
+        a, dn = M.cphases(st, 1)
+        if not any(a) and dn: fired_idle = k
     if fired_idle is None:
         out.append(res("cover.time-out-fires-with-no-round-trip-in-flight(lost start recovery)", "cover", VACUOUS, time.time() - t1, "concrete run of the model", info="idle state with done not reached"))
     else:
@@ -553,7 +553,7 @@ def c_drift(W, T, Ri, expect_tight=None):
 
 # ---- model-level broken variants of the REAL extracted system: the proof must fail AND the model must exhibit a torn word (anti-vacuity of the metastability abstraction)
 def _no_extra_flop(M):
-    """o loads (and the acknowledge is sent) on _ping.o instead of the extra flop ping_o"""
+    """o is loaded on _ping.o instead of the extra flop ping_o (one o cycle earlier); the acknowledge is unchanged"""
     ts = M.ts; v = ts.var
     ts.next["o"][M.d.o] = z3.substitute(ts.next["o"][M.d.o], (v[M.ping_o], v[M.d._ping.o]))
 def _three_flop_data(M):
@@ -564,27 +564,27 @@ def _three_flop_data(M):
     ts.next["o"][x] = old; ts.comb_eq[M.obuffer] = ts.var[x]
 SURGERY = {"no-extra-flop": _no_extra_flop, "three-flop-data-path": _three_flop_data}
 
-def c_sanity(what, W, T, depth=30):
+def c_sanity(what, W, T, depth=30, drift=None):
     t0 = time.time(); out = []
     if what == "no-assumption":
         M = Model(W, T); assume = False
+    elif what == "time-out-one-below-the-bound-of-theorem-B":
+        M = Model(W, T); assume = False; assert T == 4 * drift + 5
     elif what == "assumption-without-the-sampling-instant-clause":
         M = Model(W, T, sampling_clause=False); assume = True
     else:
         M = Model(W, T, surgery=SURGERY[what]); assume = True
     tmp = []
-    inv, kept, lost = _prove(M, tmp, None, assume)
+    inv, kept, lost = _prove(M, tmp, drift, assume)
     out.append(res(f"cover.proof-fails[{what}]", "cover", OK if inv is None and lost else VACUOUS, time.time() - t0, "z3(houdini)", info=f"required invariants lost: {lost}"))
     t1 = time.time()
-    k, script, _ = bmc(M, M.bad, depth, assume)
+    k, script, _ = bmc(M, M.bad, depth, assume, drift)
     if k is not None:
         torn, rows = M.replay(script)
         out.append(res(f"cover.model-reaches-a-torn-word[{what}]", "cover", OK if torn is not None else FAULT, time.time() - t1, "z3(bmc)+concrete replay through the model", depth=k, witness=rows,
                        info=f"o == {torn[1]} after step {torn[0]}, never on i; scheduler script with per-bit resolutions in `witness`" if torn else "solver path not confirmed by the concrete replay"))
     else: out.append(res(f"cover.model-reaches-a-torn-word[{what}]", "cover", VACUOUS if script == "none" else UNKNOWN, time.time() - t1, "z3(bmc)", info=str(script)))
-    # this case contributes only anti-vacuity covers; one counted obligation so that the case is not empty: the unchanged model's structure
-    return dict(results=out + [res(f"ens.sanity-variant-built-from-the-real-fragment[{what}; {len(M.first_stage)} first synchroniser flops]", "ensures", PROVED if len(M.first_stage) == 3 else VIOLATED, 0, "structural")],
-                functions=[FUNCS[0] + " (anti-vacuity variants of the extracted model)"])
+    return dict(results=out, functions=[FUNCS[0] + " (anti-vacuity variants of the extracted model)"])
 
 def c_bounded(W, T, R, DEPTH):
     """the bounded stand-in of C05_cdc.py at a wider word (no assumption on the time-out, drift ratio R both ways)"""
@@ -596,9 +596,14 @@ def cases(tier):
     for W in (2, 4, 8):
         for T in (8, 128):
             cs.append(VCase(f"BusSynchronizer.proof(W={W},timeout={T})", c_proof, W, T, timeout=1500))
-    cs += [VCase("BusSynchronizer.drift(W=4,timeout=8,Ri=0)", c_drift, 4, 8, 0, timeout=1500),
-           VCase("BusSynchronizer.drift(W=2,timeout=128,Ri=3)", c_drift, 2, 128, 3, timeout=1500),
-           VCase("BusSynchronizer.drift(W=8,timeout=128,Ri=30)", c_drift, 8, 128, 30, timeout=1500),
+    for W in (2, 4, 8):
+        cs += [VCase(f"BusSynchronizer.drift(W={W},timeout=8,Ri=0)", c_drift, W, 8, 0, timeout=1500),
+               VCase(f"BusSynchronizer.drift(W={W},timeout=128,Ri=30)", c_drift, W, 128, 30, timeout=1500)]
+    cs += [VCase("BusSynchronizer.drift(W=2,timeout=24,Ri=2)", c_drift, 2, 24, 2, timeout=1500),              # the parameters of the bounded stand-in in C05_cdc.py, now unbounded
+           VCase("BusSynchronizer.drift(W=2,timeout=6,Ri=0)", c_drift, 2, 6, 0, timeout=1500),            # the bound 4*Ri+6 is exact: see the two sanity cases with 4*Ri+5
+           VCase("BusSynchronizer.drift(W=2,timeout=10,Ri=1)", c_drift, 2, 10, 1, timeout=1500),
+           VCase("BusSynchronizer.sanity(timeout=5,Ri=0)", c_sanity, "time-out-one-below-the-bound-of-theorem-B", 2, 5, 30, 0, timeout=1500),
+           VCase("BusSynchronizer.sanity(timeout=9,Ri=1)", c_sanity, "time-out-one-below-the-bound-of-theorem-B", 2, 9, 30, 1, timeout=1500),
            VCase("BusSynchronizer.sanity(no-extra-flop)", c_sanity, "no-extra-flop", 2, 8, timeout=1500),
            VCase("BusSynchronizer.sanity(three-flop-data-path)", c_sanity, "three-flop-data-path", 2, 8, timeout=1500),
            VCase("BusSynchronizer.sanity(no-assumption)", c_sanity, "no-assumption", 2, 8, timeout=1500),
@@ -607,6 +612,8 @@ def cases(tier):
         cs += [VCase("BusSynchronizer.proof(W=16,timeout=128)", c_proof, 16, 128, timeout=3000),
                VCase("BusSynchronizer.proof(W=3,timeout=24)", c_proof, 3, 24, timeout=3000),
                VCase("BusSynchronizer.drift(W=8,timeout=24,Ri=4)", c_drift, 8, 24, 4, timeout=3000),
+               VCase("BusSynchronizer.drift(W=3,timeout=24,Ri=3)", c_drift, 3, 24, 3, timeout=3000),
+               VCase("BusSynchronizer.drift(W=16,timeout=128,Ri=30)", c_drift, 16, 128, 30, timeout=3000),
                VCase("BusSynchronizer.bounded(W=4,timeout=24,R=2)", c_bounded, 4, 24, 2, 24, timeout=3000)]
     return cs
 
